@@ -15,6 +15,8 @@ from ..nodes import DESER_MOD, is_ve
 from ..util import dotted, names_in, norm, short, walk_no_nested
 from . import c02
 
+VALIDATORS_MOD = "apischema.validation.validators"
+
 VALIDATE = "apischema.validation.validators.validate"
 NODE_BASES = (
     "apischema.deserialization.methods.DeserializationMethod",
@@ -487,6 +489,59 @@ def check(ctx):
         ctx.check(any(ok for _, _, ok in sites), "C10.R8", f"validators:{kind}", sites[0][1] if sites else None,
                   f"validators from `{frag}` never reach a `.merge(...)` whose result is kept: they are registered but never run", sites[0][0] if sites else None, sites[0][1] if sites else None, detail=f"{len(sites)} site(s)")
 
+    # ---------------- R9: what a validator declaration says reaches the Validator object
+    ctx.rule("C10.R9", "validator(field=, discard=, owner=) reaches the registered Validator unchanged; a field validator discards its own field by default; generator validators raise the errors they yield; dependencies = AST dependencies | declared parameters", floor=7)
+    vd = model.func(f"{VALIDATORS_MOD}.validator")
+    lam = [n for n in ast.walk(vd.node) if isinstance(n, ast.Lambda)]
+    ok = False
+    for l in lam:
+        c = l.body
+        if isinstance(c, ast.Call) and isinstance(c.func, ast.Name) and c.func.id == "validator":
+            kws = {k.arg: norm(k.value) for k in c.keywords}
+            ok = kws == {"field": "field", "discard": "discard", "owner": "owner"} and [norm(a) for a in c.args] == [l.args.args[0].arg]
+    ctx.check(ok, "C10.R9", f"{vd.qualname}:deferred", lam[0] if lam else vd.node.body[0], "the decorator-with-arguments form does not forward field / discard / owner to the decorated function's registration: the option is silently ignored", vd, vd.node, detail="lambda func: validator(func, field=field, discard=discard, owner=owner)")
+    ctor = [c for c in ast.walk(vd.node) if isinstance(c, ast.Call) and isinstance(c.func, ast.Name) and c.func.id == "Validator"]
+    ok = len(ctor) == 1 and [norm(a) for a in ctor[0].args] + [f"{k.arg}={norm(k.value)}" for k in ctor[0].keywords] in (["arg", "field", "discard"], ["arg", "field=field", "discard=discard"])
+    ctx.check(ok, "C10.R9", f"{vd.qualname}:construct", ctor[0] if ctor else vd.node.body[0], "Validator is not built with (func, field, discard)", vd, vd.node, detail="Validator(arg, field, discard)")
+    reg = [c for c in ast.walk(vd.node) if isinstance(c, ast.Call) and norm(c.func).endswith("._register")]
+    ctx.check(len(reg) == 1 and [norm(a) for a in reg[0].args] == ["owner"] and norm(reg[0].func.value) == norm(ast.parse("validator_").body[0].value), "C10.R9", f"{vd.qualname}:register", reg[0] if reg else vd.node.body[0],
+              "the Validator built for a function validator is not registered on its owner", vd, vd.node, detail="validator_._register(owner)")
+    vi = model.func(f"{VALIDATORS_MOD}.Validator.__init__")
+    pmi = parents_of(vi.node)
+    ev9 = BoolEval(complements({"field is not None": "has_field", "discard is None": "!has_discard", "errors": "has_errors"}))
+    st_d = [a for a in ast.walk(vi.node) if isinstance(a, (ast.Assign, ast.AnnAssign)) and norm(a.targets[0] if isinstance(a, ast.Assign) else a.target) == "self.discard"]
+    try:
+        by_val = {}
+        for a in st_d:
+            by_val.setdefault(norm(a.value), []).append(ev9.compile(path_condition(vi.node, a, pmi)))
+        want9 = {"(field,)": lambda x: x["has_field"] and not x["has_discard"], "discard": lambda x: not (x["has_field"] and not x["has_discard"])}
+        bad = None
+        for x in ({"has_field": a, "has_discard": b, "has_errors": False} for a in (False, True) for b in (False, True)):
+            for val, w in want9.items():
+                if any(bool(f(x)) for f in by_val.get(val, [])) != bool(w(x)):
+                    bad = (val, x)
+        ctx.check(set(by_val) == set(want9) and bad is None, "C10.R9", f"{vi.qualname}:discard-default", st_d[0] if st_d else vi.node.body[0],
+                  f"Validator.discard is not `(field,)` exactly when a field is given without discard ({bad}): a failing field validator no longer discards its field (dependent validators run on it), or an explicit discard is overridden", vi, vi.node, detail="(field,) iff field and no discard, else discard")
+    except Unknown as err:
+        ctx.undecided("C10.R9", f"{vi.qualname}: {err}")
+    ctx.check(any(norm(a) == "self.field = field" for a in ast.walk(vi.node) if isinstance(a, ast.Assign)), "C10.R9", f"{vi.qualname}:field", vi.node.body[0], "Validator.field is not the declared field: errors are no longer located under it", vi, vi.node, detail="self.field = field")
+    gen = [f for f in vi.nested.values() if any(isinstance(r, ast.Raise) for r in ast.walk(f.node))]
+    ok = False
+    if len(gen) == 1:
+        g = gen[0]
+        pg = parents_of(g.node)
+        rs = [r for r in ast.walk(g.node) if isinstance(r, ast.Raise)]
+        try:
+            f9 = ev9.compile(path_condition(g.node, rs[0], pg))
+            ok = len(rs) == 1 and bool(f9({"has_field": False, "has_discard": False, "has_errors": True})) and not bool(f9({"has_field": False, "has_discard": False, "has_errors": False})) \
+                and norm(rs[0].exc) == "build_validation_error(errors)" and any(norm(a) == "errors = list(func(*args, **kwargs))" for a in ast.walk(g.node) if isinstance(a, ast.Assign))
+        except Unknown:
+            ok = False
+    ctx.check(ok, "C10.R9", f"{vi.qualname}:generator", gen[0].node if gen else vi.node.body[0], "a generator validator does not raise build_validation_error(<all yielded errors>) exactly when it yielded something", vi, vi.node, detail="errors = list(func(...)); if errors: raise build_validation_error(errors)")
+    rg = model.func(f"{VALIDATORS_MOD}.Validator._register")
+    ok = any(isinstance(a, ast.Assign) and norm(a.targets[0]) == "self.dependencies" and "find_all_dependencies(owner, self.func)" in norm(a.value) and "self.params" in norm(a.value) and isinstance(a.value, ast.BinOp) and isinstance(a.value.op, ast.BitOr) for a in ast.walk(rg.node))
+    ctx.check(ok, "C10.R9", f"{rg.qualname}:dependencies", rg.node.body[0], "a validator's dependencies are not the fields its body reads united with its declared parameters: it runs although one of them failed", rg, rg.node, detail="find_all_dependencies(owner, self.func) | self.params")
+
 
 def fixtures(ctx):
     src = "def f(xs, i=0):\n    for i, x in enumerate(xs):\n        f(xs[i:])\n        f(xs[i + 1:])\n"
@@ -522,6 +577,10 @@ def mutants(mb):
                 "                failed = self.post_init_modified\n                if field_errors:\n                    failed = failed | field_errors.keys()\n                try:\n                    validate(\n                        ValidatorMock(self.constructor.cls, values),\n                        [\n                            v\n                            for v in validators\n                            if v.dependencies.isdisjoint(failed)\n", negative=True)
     mb.add_text("type-validators-not-merged", "apischema/deserialization/__init__.py", "            factory = factory.merge(get_constraints(get_schema(tp)), get_validators(tp))\n", "            factory = factory.merge(get_constraints(get_schema(tp)), ())\n", "C10.R8", "validators:type")
     mb.add_text("field-validators-not-merged", "apischema/deserialization/__init__.py", "                get_constraints(f.schema), f.validators\n", "                get_constraints(f.schema), ()\n", "C10.R8", "validators:field")
+    mb.add_text("decorator-drops-discard", V, "        return lambda func: validator(func, field=field, discard=discard, owner=owner)  # type: ignore", "        return lambda func: validator(func, field=field, owner=owner)  # type: ignore", "C10.R9", "deferred")
+    mb.add_text("field-validator-no-default-discard", V, "        if field is not None and discard is None:\n", "        if field is None and discard is None:\n", "C10.R9", "discard-default")
+    mb.add_text("generator-errors-ignored", V, "                if errors:\n                    raise build_validation_error(errors)\n", "                if not errors:\n                    raise build_validation_error(errors)\n", "C10.R9", "generator")
+    mb.add_text("dependencies-without-params", V, "        self.dependencies = find_all_dependencies(owner, self.func) | self.params\n", "        self.dependencies = find_all_dependencies(owner, self.func)\n", "C10.R9", "dependencies")
     mb.add_text("validators-i", V, "validators[i + 1 :]", "validators[i:]", "C10.R1", "validate")
     mb.add_text("rec-build-no-slice", E, "_rec_build_error(path[1:], msg)", "_rec_build_error(path[0:], msg)", "C10.R1", "_rec_build_error")
     mb.add_text("apply-aliaser-self", E, "        child2 = apply_aliaser(child, aliaser)\n", "        child2 = apply_aliaser(error, aliaser)\n", "C10.R1", "apply_aliaser")
